@@ -25,6 +25,7 @@ CLAUSE_PROP = {
     "TagMatchesRepr": "C07", "ShapeIsProduct": "C07", "MembersShareLevel": "C07", "NumericOK": "C07",
     "MeasuredGone": "C05", "OnlyMeasurementDestroys": "C05", "OutcomeKeys": "C05", "DestroyedRejected": "C05",
     "RejectedIsNoop": "C17", "StructuralKeepsJoint": "C02", "ResizeReturn": "C10",
+    "CutoffAdequate": "C10", "ChannelMatchesModel": "C06",
     "BystanderUntouched": "C20", "MergeOnlyAddressed": "C20", "SingleNeverGrows": "C20", "MeasuredLeaves": "C20",
     "KeyFresh": "C14", "OpStable": "C15", "OpParamsStable": "C15", "UserArraysUntouched": "C15",
 }
